@@ -80,13 +80,13 @@ def paths(plot):
 
 
 def check_history(nruns: int, nplots: int, cd0: bool, ct0: bool, del0: int, cd1: bool, ct1: bool,
-                  del1: int, wmode: int, conv_over: bool) -> bool:
+                  del1: int, wmode: int, conv_over: bool, reuse: bool = False) -> bool:
     """
     pre: 1 <= nruns <= B.RUNS
     pre: 1 <= nplots <= B.PLOTS
     pre: 0 <= del0 <= 15 and 0 <= del1 <= 15
     pre: 0 <= wmode <= 3
-    pre: h.in_shard(del0)
+    pre: h.in_shard(del0 + 16 * (1 if reuse else 0))
     post: _
     """
     nruns = h.concrete(nruns, 1, B.RUNS)
@@ -108,6 +108,9 @@ def check_history(nruns: int, nplots: int, cd0: bool, ct0: bool, del0: int, cd1:
     version = 0
     tplv = 0
     with world([write_mod, l2p_mod, p2p_mod], with_subprocess=True) as fs, quiet():
+        # reuse: one pipeline object runs the whole history (elements may keep
+        # state between runs); otherwise the pipeline is rebuilt for every run
+        pipeline = chain(env, wmode, co) if reuse else None
         for r, (cd, ct, dels) in enumerate(steps):
             if cd:
                 version += 1
@@ -123,7 +126,7 @@ def check_history(nruns: int, nplots: int, cd0: bool, ct0: bool, del0: int, cd1:
             mark = len(fs.log)
             ncalls = len(fs.subprocess.calls)
             flow = [(data_hist(version, p), {"plot": p}) for p in range(nplots)]
-            out = list(chain(env, wmode, co).run(iter(flow)))
+            out = list((pipeline if reuse else chain(env, wmode, co)).run(iter(flow)))
             if len(out) != nplots:
                 return h.ok(False)
             writes = fs.writes_since(mark)
@@ -269,7 +272,7 @@ CONDITIONS = [
     dict(fn="check_make_filename_keys", budget=(60, 300),
          smoke=["check_make_filename_keys(0, 0, 0, False, False)", "check_make_filename_keys(1, 2, 1, False, False)",
                 "check_make_filename_keys(2, 2, 2, False, True)", "check_make_filename_keys(2, 1, 0, True, True)"]),
-    dict(fn="check_history", shards=(16, 16), budget=(90, 1500),
+    dict(fn="check_history", shards=(32, 32), budget=(90, 1500),
          smoke=["check_history(2, 1, False, False, 0, False, False, 0, 0, False)",
                 "check_history(2, 1, True, False, 4, False, False, 0, 0, False)",
                 "check_history(2, 1, False, False, 0, False, False, 0, 1, True)",
